@@ -286,6 +286,14 @@ def _mat(m):
         kw["electric_conductivity"] = _tup(m["sigE"])
     if "sigH" in m:
         kw["magnetic_conductivity"] = _tup(m["sigH"])
+    if "poles" in m:  # [{"type": "lorentz", "w": rad/s, "g": rad/s, "de": x} | {"type": "drude", "wp": rad/s, "g": rad/s}]
+        poles = []
+        for q in m["poles"]:
+            if q["type"] == "lorentz":
+                poles.append(fdtdx.LorentzPole(resonance_frequency=q["w"], damping=q["g"], delta_epsilon=q["de"]))
+            else:
+                poles.append(fdtdx.DrudePole(plasma_frequency=q["wp"], damping=q["g"]))
+        kw["dispersion"] = fdtdx.DispersionModel(poles=tuple(poles))
     return fdtdx.Material(**kw)
 
 
@@ -368,7 +376,7 @@ def switch_on_steps(sw, steps):
     if sw.get("is_always_off"):
         return []
     if "fixed_on_time_steps" in sw:
-        return sorted(sw["fixed_on_time_steps"])
+        return sorted(set(sw["fixed_on_time_steps"]))
     a = sw.get("start_step", 0)
     b = sw.get("end_step", steps)
     if "on_for_steps" in sw:  # documented defaulting: start = end - on_for | 0, end = start + on_for
